@@ -190,7 +190,7 @@ def check_program(res: Res, p: dict) -> None:
             if want is not None and v != want:
                 res.violate("size-symbol", f"{k} = {v}, file length {want}", wit)
                 return
-    a = analyse(events)
+    a = analyse(events, nodetap().position_classes_known())
     res.count("tap_nodes_judged", a["judged"])
     if a["deviations"]:
         res.violate("size-differs-from-emitted", f"{a['deviations'][0][0]}: {a['deviations'][0][1]}", wit)
